@@ -58,7 +58,7 @@ func laws(sel int, in, got []int64, law func(lsel int, lin []int64, sig string))
 			law(111, w.T, "")
 			law(112, w.T, "")
 			law(113, w.T, "C05-pgpending-stale-counters")
-			law(114, w.T, "C05-cache-status-leak")
+			law(114, w.T, "")
 		}
 	case 2:
 		r := &jobctl.R{T: in}
